@@ -168,7 +168,7 @@ func specC13(l *Loaded, tier string, seed int64) (*Spec, error) {
 	// after a warm-up that already displaced keys (pre = cap+1 or cap+2 concrete puts of distinct keys): repeated displacement
 	warm := [][4]int{{3, 5, 4, 2}, {3, 5, 5, 2}, {4, 6, 5, 2}} // capacity, keys, pre, k
 	if tier == "thorough" {
-		warm = [][4]int{{3, 5, 4, 3}, {3, 5, 5, 3}, {4, 6, 5, 3}, {4, 6, 6, 3}, {2, 4, 3, 3}}
+		warm = [][4]int{{3, 5, 4, 3}, {3, 5, 5, 3}, {4, 6, 5, 2}, {4, 6, 6, 2}, {2, 4, 3, 3}}
 	}
 	for _, w := range warm {
 		for op0 := 0; op0 < 3; op0++ {
